@@ -103,8 +103,8 @@ func checkCompositeLiteral(
 		return nil
 	}
 
-	// Check if we're in one of the allowed constructors
-	if constructors.Match(pkgPath, currentFunction, typeName) {
+	// Check if we're in one of the allowed constructors (functions of the type's own package)
+	if pass.Pkg.Path() == pkgPath && constructors.Match(pkgPath, currentFunction, typeName) {
 		return nil
 	}
 
@@ -163,8 +163,8 @@ func checkNewCall(
 		return nil
 	}
 
-	// Check if we're in one of the allowed constructors
-	if constructors.Match(pkgPath, currentFunction, typeName) {
+	// Check if we're in one of the allowed constructors (functions of the type's own package)
+	if pass.Pkg.Path() == pkgPath && constructors.Match(pkgPath, currentFunction, typeName) {
 		return nil
 	}
 
@@ -235,8 +235,8 @@ func checkVarDeclaration(
 				continue
 			}
 
-			// Check if we're in one of the allowed constructors
-			if constructors.Match(pkgPath, currentFunction, typeName) {
+			// Check if we're in one of the allowed constructors (functions of the type's own package)
+			if pass.Pkg.Path() == pkgPath && constructors.Match(pkgPath, currentFunction, typeName) {
 				continue
 			}
 
